@@ -201,12 +201,44 @@ fn text_bodies() -> Vec<Vec<u8>> {
 
 fn header_sets() -> Vec<Vec<HttpHeader>> {
     let h = |n: &str, v: &str| HttpHeader { name: n.into(), value: v.into() };
-    vec![
-        vec![],
-        vec![h("Date", "Mon, 01 Jan 2024 00:00:00 GMT")],
-        vec![h("Set-Cookie", "a=1"), h("Set-Cookie", "a=2")],
-        (0..50).map(|i| h(&format!("X-H{}", i), &format!("{}", i))).collect(),
-    ]
+    // headers a server or a CDN really sends and that a transform might be tempted to look
+    // at (content negotiation, length, encoding, caching, redirects, rate limits), with names
+    // in different cases; all subsets of size <= 2 of this alphabet, plus bulk sets
+    let alphabet = vec![
+        h("Content-Type", "application/json"),
+        h("content-type", "application/json; charset=utf-8"),
+        h("Content-Type", "text/plain"),
+        h("CONTENT-TYPE", "text/html; charset=UTF-8"),
+        h("content-type", "application/octet-stream"),
+        h("Content-Type", ""),
+        h("Content-Length", "0"),
+        h("content-length", "999999"),
+        h("Content-Encoding", "gzip"),
+        h("Transfer-Encoding", "chunked"),
+        h("Cache-Control", "no-store"),
+        h("ETag", "\"abc\""),
+        h("Retry-After", "120"),
+        h("Location", "https://example.org/"),
+        h("X-RateLimit-Remaining", "0"),
+        h("Date", "Mon, 01 Jan 2024 00:00:00 GMT"),
+        h("Set-Cookie", "a=1"),
+        h("", ""),
+    ];
+    let mut sets: Vec<Vec<HttpHeader>> = vec![vec![]];
+    for a in &alphabet {
+        sets.push(vec![a.clone()]);
+    }
+    for i in 0..alphabet.len() {
+        for j in 0..alphabet.len() {
+            if i != j {
+                sets.push(vec![alphabet[i].clone(), alphabet[j].clone()]);
+            }
+        }
+    }
+    sets.push(vec![h("Set-Cookie", "a=1"), h("Set-Cookie", "a=2")]);
+    sets.push((0..50).map(|i| h(&format!("X-H{}", i), &format!("{}", i))).collect());
+    sets.push(alphabet);
+    sets
 }
 
 fn statuses() -> Vec<Nat> {
@@ -406,7 +438,7 @@ pub fn run(tier: &str) -> i32 {
                     for st in styles {
                         let text = render(&doc, st);
                         distinct.insert(fp64(text.as_bytes()));
-                        for hs in [&hsets[0], &hsets[3]] {
+                        for hs in [&hsets[0], &hsets[3], &hsets[hsets.len() - 1]] {
                             if let Some(r) = apply(&mut out, &name, &f, &ok, hs, text.as_bytes(), "json document") {
                                 bodies.push(r.body);
                             }
